@@ -337,6 +337,9 @@ def check_post(it, st, con, result):
             ctx.oblige(st, "post:type", z3.BoolVal(False), text="returned value has type %r, contract says %r" % (result.ty, rty))
             return
     st.env["result"] = result
+    for gname, gty in con.ghost_results.items():
+        if gname not in st.env:
+            st.env[gname] = it.fresh_value(gty, "g_" + gname, st)      # a ghost output that this path never produced
     line = ctx.cur_line
     for i, e in enumerate(con.ensures):
         g = it.truthy(it.spec_text(e, st), st)
